@@ -4,6 +4,7 @@ Interface theorems of the heap model: the wrapper refines a finite map `name ⇀
 Statements are fixed; proofs live here.  Used by Proofs/CronTick.lean and Props/C01.lean.
 -/
 import FurikoModel.Model.Heap
+import FurikoModel.Proofs.HeapLemmasOps
 
 namespace Furiko.Heap
 
@@ -24,40 +25,234 @@ def lookupItems : List (String × Int) → String → Option Int
   | [], _ => none
   | (n, p) :: rest, k => if k = n then some p else lookupItems rest k
 
+/-! ### bridges to the `[i]!`-phrased helper lemmas (Proofs/HeapLemmas*.lean) -/
+
+theorem wf_iff (pq : PQ) : WF pq ↔ WF' pq := by
+  constructor
+  · rintro ⟨h1, h2⟩
+    refine ⟨fun i hi => ?_, fun k i hk => ?_⟩
+    · rw [getElem!_pos pq.queue i hi]; exact h1 i hi
+    · obtain ⟨hi, hn⟩ := h2 k i hk
+      rw [getElem!_pos pq.queue i hi]; exact ⟨hi, hn⟩
+  · rintro ⟨h1, h2⟩
+    refine ⟨fun i hi => ?_, fun k i hk => ?_⟩
+    · have := h1 i hi
+      rw [getElem!_pos pq.queue i hi] at this; exact this
+    · obtain ⟨hi, hn⟩ := h2 k i hk
+      rw [getElem!_pos pq.queue i hi] at hn; exact ⟨hi, hn⟩
+
+theorem heapOrd_iff (pq : PQ) : HeapOrd pq ↔ HeapFrom pq 0 pq.queue.size := by
+  constructor
+  · intro h m hm0 hm _
+    have := h m hm hm0
+    unfold prio
+    rw [getElem!_pos pq.queue m hm, getElem!_pos pq.queue ((m - 1) / 2) (by omega)]
+    exact this
+  · intro h m hm hm0
+    have := h m hm0 hm (Nat.zero_le _)
+    unfold prio at this
+    rw [getElem!_pos pq.queue m hm, getElem!_pos pq.queue ((m - 1) / 2) (by omega)] at this
+    exact this
+
+theorem inv_iff (pq : PQ) : Inv pq ↔ Inv' pq := by
+  unfold Inv Inv'; rw [wf_iff, heapOrd_iff]
+
+theorem search_none_iff (pq : PQ) (k : String) : search pq k = none ↔ pq.names k = none := by
+  rw [search_eq]; cases pq.names k <;> simp
+
+theorem lookupItems_not_mem (l : List (String × Int)) (k : String) (h : k ∉ l.map Prod.fst) :
+    lookupItems l k = none := by
+  induction l with
+  | nil => rfl
+  | cons hd tl ih =>
+    obtain ⟨n, p⟩ := hd
+    simp only [List.map_cons, List.mem_cons, not_or] at h
+    unfold lookupItems
+    rw [if_neg h.1]
+    exact ih h.2
+
+theorem lookupItems_cons (n : String) (p : Int) (rest : List (String × Int)) (k : String) :
+    lookupItems ((n, p) :: rest) k = if k = n then some p else lookupItems rest k := rfl
+
+theorem build_spec (l : List (String × Int)) : ∀ (a : PQ), WF' a → (l.map Prod.fst).Nodup →
+    (∀ x, x ∈ l.map Prod.fst → a.names x = none) →
+    WF' (new.build l a.queue.size a) ∧
+      ∀ k, search (new.build l a.queue.size a) k = (lookupItems l k).or (search a k) := by
+  induction l with
+  | nil =>
+    intro a h _ _
+    exact ⟨h, fun k => rfl⟩
+  | cons hd tl ih =>
+    intro a h hnd hfresh
+    obtain ⟨nm, p⟩ := hd
+    simp only [List.map_cons, List.nodup_cons] at hnd
+    have hnm : a.names nm = none := hfresh nm (by simp)
+    have hwf := pushRaw_wf h nm p hnm
+    rw [build_cons, ← pushRaw_size a nm p]
+    have hfresh' : ∀ x, x ∈ tl.map Prod.fst → (a.pushRaw nm p).names x = none := by
+      intro x hx
+      rw [pushRaw_names, if_neg (by rintro rfl; exact hnd.1 hx)]
+      exact hfresh x (by simp only [List.map_cons, List.mem_cons]; exact Or.inr hx)
+    obtain ⟨h1, h2⟩ := ih (a.pushRaw nm p) hwf hnd.2 hfresh'
+    refine ⟨h1, fun k => ?_⟩
+    rw [h2 k, pushRaw_search h, lookupItems_cons nm p tl k]
+    by_cases e : k = nm
+    · rw [if_pos e, if_pos e, e, lookupItems_not_mem tl nm hnd.1]; rfl
+    · rw [if_neg e, if_neg e]
+
+theorem new_spec (items : List (String × Int)) (hnd : (items.map Prod.fst).Nodup) :
+    Inv' (new items) ∧ ∀ k, search (new items) k = lookupItems items k := by
+  obtain ⟨h1, h2⟩ := build_spec items default default_wf hnd (fun _ _ => rfl)
+  rw [default_size] at h1 h2
+  obtain ⟨h3, h4⟩ := heapInit_spec h1
+  rw [new_eq]
+  refine ⟨h3, fun k => ?_⟩
+  rw [h4 k, h2 k, default_search, Option.or_none]
+
+theorem update_some {pq : PQ} (hwf : WF' pq) (n : String) (p : Int) (idx : Nat)
+    (hk : pq.names n = some idx) : update pq n p = (heapFix (setPrio pq idx p) idx, true) := by
+  have hidx : (pq.queue[idx]!).index.toNat = idx := by
+    rw [(hwf.1 idx (hwf.2 n idx hk).1).1]; rfl
+  unfold update
+  rw [hk]
+  simp only [hidx]
+  rfl
+
+theorem update_none {pq : PQ} (n : String) (p : Int) (hk : pq.names n = none) :
+    update pq n p = (pq, false) := by
+  unfold update; rw [hk]
+
+theorem delete_some {pq : PQ} (hwf : WF' pq) (n : String) (idx : Nat)
+    (hk : pq.names n = some idx) : delete pq n = ((heapRemove pq idx).1, true) := by
+  have hidx : (pq.queue[idx]!).index.toNat = idx := by
+    rw [(hwf.1 idx (hwf.2 n idx hk).1).1]; rfl
+  unfold delete
+  rw [hk]
+  simp only [hidx]
+
+theorem delete_none {pq : PQ} (n : String) (hk : pq.names n = none) :
+    delete pq n = (pq, false) := by
+  unfold delete; rw [hk]
+
+theorem update_spec {pq : PQ} (h : Inv' pq) (n : String) (p : Int) :
+    Inv' (update pq n p).1 ∧
+      (pq.names n ≠ none → ∀ k, search (update pq n p).1 k = if k = n then some p else search pq k) := by
+  rcases Option.eq_none_or_eq_some (pq.names n) with hk | ⟨idx, hk⟩
+  · rw [update_none n p hk]; exact ⟨h, fun c => absurd hk c⟩
+  · rw [update_some h.1 n p idx hk]
+    obtain ⟨h1, h2⟩ := heapFix_setPrio_spec h n idx p hk
+    exact ⟨h1, fun _ => h2⟩
+
+theorem delete_spec {pq : PQ} (h : Inv' pq) (n : String) :
+    Inv' (delete pq n).1 ∧ ∀ k, search (delete pq n).1 k = if k = n then none else search pq k := by
+  rcases Option.eq_none_or_eq_some (pq.names n) with hk | ⟨idx, hk⟩
+  · rw [delete_none n hk]
+    refine ⟨h, fun k => ?_⟩
+    split
+    · next e => rw [e]; exact (search_none_iff pq n).2 hk
+    · rfl
+  · rw [delete_some h.1 n idx hk]
+    obtain ⟨hi, hname⟩ := h.1.2 n idx hk
+    obtain ⟨h1, h2⟩ := heapRemove_spec h idx hi
+    rw [hname] at h2
+    exact ⟨h1, h2⟩
+
+
 theorem inv_new (items : List (String × Int)) (hnd : (items.map Prod.fst).Nodup) :
-    Inv (new items) := by sorry
+    Inv (new items) := by
+  exact (inv_iff _).2 (new_spec items hnd).1
 
 theorem search_new (items : List (String × Int)) (hnd : (items.map Prod.fst).Nodup) (k : String) :
-    search (new items) k = lookupItems items k := by sorry
+    search (new items) k = lookupItems items k := by
+  exact (new_spec items hnd).2 k
 
 theorem inv_push {pq : PQ} (h : Inv pq) (n : String) (p : Int) (hfresh : search pq n = none) :
-    Inv (push pq n p) := by sorry
+    Inv (push pq n p) := by
+  exact (inv_iff _).2 (heapPush_spec ((inv_iff _).1 h) n p ((search_none_iff pq n).1 hfresh)).1
 
 theorem search_push {pq : PQ} (h : Inv pq) (n : String) (p : Int) (hfresh : search pq n = none)
-    (k : String) : search (push pq n p) k = if k = n then some p else search pq k := by sorry
+    (k : String) : search (push pq n p) k = if k = n then some p else search pq k := by
+  exact (heapPush_spec ((inv_iff _).1 h) n p ((search_none_iff pq n).1 hfresh)).2 k
 
 theorem update_miss {pq : PQ} (n : String) (p : Int) (hmiss : search pq n = none) (h : Inv pq) :
-    update pq n p = (pq, false) := by sorry
+    update pq n p = (pq, false) := by
+  have _ := h
+  exact update_none n p ((search_none_iff pq n).1 hmiss)
 
-theorem inv_update {pq : PQ} (h : Inv pq) (n : String) (p : Int) : Inv (update pq n p).1 := by sorry
+theorem inv_update {pq : PQ} (h : Inv pq) (n : String) (p : Int) : Inv (update pq n p).1 := by
+  exact (inv_iff _).2 (update_spec ((inv_iff _).1 h) n p).1
 
 theorem search_update {pq : PQ} (h : Inv pq) (n : String) (p : Int) (hk : search pq n ≠ none)
-    (k : String) : search (update pq n p).1 k = if k = n then some p else search pq k := by sorry
+    (k : String) : search (update pq n p).1 k = if k = n then some p else search pq k := by
+  exact (update_spec ((inv_iff _).1 h) n p).2 (fun c => hk ((search_none_iff pq n).2 c)) k
 
-theorem inv_delete {pq : PQ} (h : Inv pq) (n : String) : Inv (delete pq n).1 := by sorry
+theorem inv_delete {pq : PQ} (h : Inv pq) (n : String) : Inv (delete pq n).1 := by
+  exact (inv_iff _).2 (delete_spec ((inv_iff _).1 h) n).1
 
 theorem search_delete {pq : PQ} (h : Inv pq) (n : String) (k : String) :
-    search (delete pq n).1 k = if k = n then none else search pq k := by sorry
+    search (delete pq n).1 k = if k = n then none else search pq k := by
+  exact (delete_spec ((inv_iff _).1 h) n).2 k
 
-theorem peek_none_iff {pq : PQ} (h : Inv pq) : peek pq = none ↔ ∀ k, search pq k = none := by sorry
+theorem peek_eq_some {pq : PQ} {it : Item} (hp : peek pq = some it) :
+    0 < pq.queue.size ∧ it = pq.queue[0]! := by
+  unfold peek PQ.len at hp
+  split at hp
+  · cases hp
+  · exact ⟨by omega, (Option.some.inj hp).symm⟩
+
+theorem peek_none {pq : PQ} : peek pq = none ↔ pq.queue.size = 0 := by
+  unfold peek PQ.len
+  split
+  · exact ⟨fun _ => (by omega), fun _ => rfl⟩
+  · exact ⟨fun h => (by cases h), fun h => (by omega)⟩
+
+theorem peek_none_iff {pq : PQ} (h : Inv pq) : peek pq = none ↔ ∀ k, search pq k = none := by
+  have hwf := ((inv_iff _).1 h).1
+  rw [peek_none]
+  constructor
+  · intro h0 k
+    rw [search_none_iff]
+    rcases Option.eq_none_or_eq_some (pq.names k) with hk | ⟨m, hk⟩
+    · exact hk
+    · have := (hwf.2 k m hk).1; omega
+  · intro hall
+    refine Nat.eq_zero_of_not_pos (fun hpos => ?_)
+    have h1 := (hwf.1 0 hpos).2
+    have h2 := (search_none_iff pq _).1 (hall (pq.queue[0]!).name)
+    rw [h1] at h2; cases h2
 
 theorem peek_min {pq : PQ} (h : Inv pq) {it : Item} (hp : peek pq = some it) :
-    search pq it.name = some it.prio ∧ ∀ k p, search pq k = some p → it.prio ≤ p := by sorry
+    search pq it.name = some it.prio ∧ ∀ k p, search pq k = some p → it.prio ≤ p := by
+  obtain ⟨hwf, ho⟩ := (inv_iff _).1 h
+  obtain ⟨hpos, rfl⟩ := peek_eq_some hp
+  constructor
+  · rw [search_eq, (hwf.1 0 hpos).2]; rfl
+  · intro k p hk
+    rw [search_eq] at hk
+    rcases Option.eq_none_or_eq_some (pq.names k) with hn | ⟨m, hn⟩
+    · rw [hn] at hk; cases hk
+    · rw [hn] at hk
+      have : prio pq m = p := Option.some.inj hk
+      rw [← this]
+      exact ho.root_le m (hwf.2 k m hn).1
 
 theorem pop_spec {pq : PQ} (h : Inv pq) {it : Item} (hp : peek pq = some it) :
     ∃ pq' it', pop pq = some (pq', it') ∧ it'.name = it.name ∧ it'.prio = it.prio ∧ Inv pq' ∧
-      ∀ k, search pq' k = if k = it.name then none else search pq k := by sorry
+      ∀ k, search pq' k = if k = it.name then none else search pq k := by
+  have h' := (inv_iff _).1 h
+  obtain ⟨hpos, rfl⟩ := peek_eq_some hp
+  obtain ⟨h1, h2, h3⟩ := heapPop_spec h' hpos
+  refine ⟨(heapPop pq).1, (heapPop pq).2, ?_, ?_, ?_, (inv_iff _).2 h1, h3⟩
+  · unfold pop PQ.len
+    rw [if_neg (by omega)]
+  · rw [h2]
+  · rw [h2]
 
-theorem pop_none_iff {pq : PQ} : pop pq = none ↔ peek pq = none := by sorry
+theorem pop_none_iff {pq : PQ} : pop pq = none ↔ peek pq = none := by
+  rw [peek_none]
+  unfold pop PQ.len
+  split
+  · exact ⟨fun _ => (by assumption), fun _ => rfl⟩
+  · exact ⟨fun h => (by cases h), fun h => (by omega)⟩
 
 end Furiko.Heap
